@@ -1018,6 +1018,7 @@ class MaterialIndexer(Indexer):
                 raise IndexError('invalid index kind')
         else:
             if kind is None:
+                if index.__class__ is tuple: index, _ = index # (phase, ...) key
                 values = self.data if index is None else self.data.rows[index]
             else:
                 phase_index, chemical_index = index
@@ -1036,6 +1037,7 @@ class MaterialIndexer(Indexer):
             raise IndexError("multiple phases present; must include phase key "
                              "to set chemical data")
         if kind is None:
+            if index.__class__ is tuple: index, _ = index # (phase, ...) key
             if index is None:
                 self.data[:] = data
             else:
